@@ -80,6 +80,8 @@ func init() {
 					hs = append(hs, vpHeaderCfg{Name: name, Claim: "email", Preserve: h.Preserve})
 				case "dup":
 					hs = append(hs, vpHeaderCfg{Name: name, Claim: claim, Preserve: h.Preserve})
+				case "none":
+					hs[0].NoValues = true
 				}
 				cfg.Legacy = nil
 				cfg.Structured = true
